@@ -38,6 +38,8 @@ def scope(b):
 
 def run(ctx, rep):
     facts = ctx.facts()
+    import fixtures
+    fixtures.run_controls(rep, ['E2', 'E3'], lambda: ctx.reload())
     rep.rule('E2', e2_float.__doc__.strip().split('\n')[0])
     rep.rule('E3', e3_gcd.__doc__.strip().split('\n')[0])
     e2_float.apply(facts, rep, scope, 'C15', floor_scope=60)
